@@ -1,16 +1,39 @@
-"""Syscall-granular fault layer under uberjob.stores._file_store (DESIGN 3,
-C11).  `open` and `os` of that module are replaced; the unit of failure is the
-raw file operation (open, each raw write, close, replace, remove), not the
-Python-level write call.  Real files in a scratch directory underneath."""
+"""Syscall-granular fault layer under everything that touches the scratch
+directory of a case (DESIGN 3, C11).  The unit of failure is the raw file
+operation (open, each raw write, close, replace / rename, link, remove), not
+the Python-level write call.  Real files in a scratch directory underneath.
+
+The seam is process-wide and keyed by path: while a plan is installed,
+`builtins.open` / `io.open`, `os.replace`, `os.rename`, `os.remove`,
+`os.unlink`, `os.link`, `os.symlink`, `os.truncate` and the descriptor-level
+`os.open` / `os.write` / `os.close` / `os.fdopen` go through the layer **for
+paths under the plan's root** and straight to the real function for every
+other path (the harness's own files, the import system).  So it does not
+matter through which module (`shutil`, `pathlib`, `tempfile`) the code under
+test reaches the file system.  Names bound at import time in uberjob modules
+(`from os import replace`) are re-bound as well.  `shutil` is told not to use
+sendfile(2), so that a copy is a sequence of raw writes."""
+import builtins as _builtins
 import errno
 import io
 import os as _os
+import shutil as _shutil
+import sys as _sys
+
+REAL = dict(open=io.open, replace=_os.replace, rename=_os.rename, remove=_os.remove, unlink=_os.unlink,
+            link=_os.link, symlink=_os.symlink, truncate=_os.truncate, os_open=_os.open, os_write=_os.write,
+            os_close=_os.close, fdopen=_os.fdopen, utime=_os.utime)
+real_open = io.open
 
 
 class FaultPlan:
     """fault = None | dict(k=int, kind='error'|'short'|'die-before'|'die-after', errno=...)"""
 
-    def __init__(self, fault=None, buffer_size=8192, hook=None, stamp=None):
+    def __init__(self, fault=None, buffer_size=8192, hook=None, stamp=None, root=None):
+        if root is None:
+            raise ValueError("the fault layer needs the scratch directory it governs")
+        self.root = _os.path.abspath(str(root)) + _os.sep
+        self.fds = {}       # descriptors opened through os.open under the root -> path
         self.fault = fault
         self.buffer_size = buffer_size
         self.ops = []       # (name, detail)
@@ -51,8 +74,13 @@ class _Dead(Exception):
 
 
 class FaultyFileIO(io.FileIO):
-    def __init__(self, path, mode):
+    def __init__(self, path, mode, closefd=True):
         plan = PLAN[0]
+        if isinstance(path, int):
+            # a descriptor that came from the layer's os.open: that open has been counted already
+            self._path = plan.fds.pop(path)
+            super().__init__(path, mode, closefd=closefd)
+            return
         self._path = str(path)
         if plan.dead:
             raise _Dead()
@@ -79,7 +107,7 @@ class FaultyFileIO(io.FileIO):
         """The kernel's modified time, on the virtual clock (through the descriptor)."""
         if plan.stamp is not None:
             t = plan.stamp()
-            _os.utime(self.fileno(), ns=(int(round(t * 1e9)), int(round(t * 1e9))))
+            REAL["utime"](self.fileno(), ns=(int(round(t * 1e9)), int(round(t * 1e9))))
 
     def write(self, b):
         plan = PLAN[0]
@@ -135,18 +163,37 @@ class FaultyFileIO(io.FileIO):
             raise plan.err()
 
 
-def fake_open(path, mode="r", buffering=-1, encoding=None, errors=None, newline=None, **kw):
-    if "w" not in mode:
-        return io.open(path, mode, buffering, encoding, errors, newline, **kw)
+def _governed(path):
+    """The path (str) if the installed plan governs it, else None."""
     plan = PLAN[0]
-    raw = FaultyFileIO(path, "w")
+    if plan is None:
+        return None
+    if isinstance(path, int):
+        return plan.fds.get(path)
+    try:
+        p = _os.fspath(path)
+    except TypeError:
+        return None
+    if isinstance(p, bytes):
+        p = _os.fsdecode(p)
+    a = _os.path.abspath(p)
+    return a if a.startswith(plan.root) else None
+
+
+def fake_open(file, mode="r", buffering=-1, encoding=None, errors=None, newline=None, closefd=True, opener=None):
+    if not any(c in mode for c in "wax+") or opener is not None or _governed(file) is None:
+        return REAL["open"](file, mode, buffering, encoding, errors, newline, closefd, opener)
+    plan = PLAN[0]
+    raw_mode = "".join(c for c in mode if c in "wax+r")
+    raw = FaultyFileIO(file, raw_mode, closefd) if isinstance(file, int) else FaultyFileIO(file, raw_mode)
     if buffering == 0:
         if "b" not in mode:
             raw.close()
             raise ValueError("can't have unbuffered text I/O")
         return raw   # as the real open(): the caller talks to the raw file
     try:
-        buf = io.BufferedWriter(raw, buffer_size=plan.buffer_size if buffering < 0 else max(1, buffering))
+        size = plan.buffer_size if buffering < 0 else max(1, buffering)
+        buf = (io.BufferedRandom if "+" in mode else io.BufferedWriter)(raw, buffer_size=size)
     except BaseException:
         raw.close()
         raise
@@ -155,63 +202,204 @@ def fake_open(path, mode="r", buffering=-1, encoding=None, errors=None, newline=
     return io.TextIOWrapper(buf, encoding=encoding, errors=errors, newline=newline)
 
 
-class FakeOs:
-    """Stands in for the `os` module inside uberjob.stores._file_store."""
+def _path_op(opname, real, which):
+    """A whole-path operation (replace, rename, link, ...): `which` is the index of the argument whose path names
+    the operation in the log and decides whether the layer governs it."""
 
-    path = _os.path
-
-    def __getattr__(self, name):
-        return getattr(_os, name)
-
-    @staticmethod
-    def replace(src, dst):
+    def op(*args, **kw):
+        p = _governed(args[which]) if len(args) > which else None
+        if p is None:
+            return real(*args, **kw)
         plan = PLAN[0]
         if plan.dead:
-            return
+            return None
         if plan.hook:
-            plan.hook("before", "replace", str(dst))
-            _os.replace(src, dst)
-            plan.hook("after", "replace", str(dst))
-            return
-        act = plan.op("replace", _os.path.basename(str(dst)))
+            plan.hook("before", opname, p)
+            r = real(*args, **kw)
+            plan.hook("after", opname, p)
+            return r
+        act = plan.op(opname, _os.path.basename(p))
         if act == "die-before":
             _die()
-        if act in ("error", "short"):
+        if act in ("error", "short", "partial"):
             raise plan.err()
-        _os.replace(src, dst)
+        r = real(*args, **kw)
         if act == "die-after":
             _die()
+        return r
 
-    @staticmethod
-    def remove(path):
+    op.__name__ = opname
+    return op
+
+
+def _remove(real):
+    def remove(path, *a, **kw):
+        p = _governed(path)
+        if p is None:
+            return real(path, *a, **kw)
         plan = PLAN[0]
         if plan.dead:
-            return
-        plan.op("remove", _os.path.basename(str(path)))
-        _os.remove(path)
+            return None
+        plan.op("remove", _os.path.basename(p))
+        return real(path, *a, **kw)
+
+    return remove
+
+
+def _os_open(path, flags, mode=0o777, *, dir_fd=None):
+    p = _governed(path) if dir_fd is None else None
+    if p is None or not flags & (_os.O_WRONLY | _os.O_RDWR):
+        return REAL["os_open"](path, flags, mode, dir_fd=dir_fd)
+    plan = PLAN[0]
+    if plan.dead:
+        raise _Dead()
+    if plan.hook:
+        plan.hook("before", "open", p)
+        fd = REAL["os_open"](path, flags, mode)
+        plan.fds[fd] = p
+        if plan.stamp is not None and flags & (_os.O_CREAT | _os.O_TRUNC):
+            t = int(round(plan.stamp() * 1e9))
+            REAL["utime"](fd, ns=(t, t))
+        plan.hook("after", "open", p)
+        return fd
+    act = plan.op("open", _os.path.basename(p))
+    if act == "die-before":
+        _die()
+    if act in ("error", "short", "partial"):
+        raise plan.err()
+    fd = REAL["os_open"](path, flags, mode)
+    plan.fds[fd] = p
+    if act == "die-after":
+        _die()
+    return fd
+
+
+def _os_write(fd, data):
+    plan = PLAN[0]
+    p = plan.fds.get(fd) if plan is not None else None
+    if p is None:
+        return REAL["os_write"](fd, data)
+    if plan.dead:
+        return len(data)
+    if plan.hook:
+        plan.hook("before", "write", p)
+        n = REAL["os_write"](fd, data)
+        if plan.stamp is not None:
+            t = int(round(plan.stamp() * 1e9))
+            REAL["utime"](fd, ns=(t, t))
+        plan.hook("after", "write", p)
+        return n
+    act = plan.op("write", len(data))
+    if act == "die-before":
+        _die()
+    if act == "error":
+        raise plan.err()
+    if act in ("short", "partial"):
+        n = REAL["os_write"](fd, bytes(data[:max(1, len(data) // 2)]))
+        if act == "short":
+            raise plan.err()
+        return n
+    n = REAL["os_write"](fd, data)
+    if act == "die-after":
+        _die()
+    return n
+
+
+def _os_close(fd):
+    plan = PLAN[0]
+    p = plan.fds.pop(fd, None) if plan is not None else None
+    if p is None or plan.dead:
+        return REAL["os_close"](fd)
+    if plan.hook:
+        try:
+            plan.hook("before", "close", p)
+        except BaseException:
+            REAL["os_close"](fd)
+            raise
+        REAL["os_close"](fd)
+        plan.hook("after", "close", p)
+        return None
+    act = plan.op("close")
+    if act == "die-before":
+        _die()
+    REAL["os_close"](fd)
+    if act == "die-after":
+        _die()
+    if act in ("error", "short", "partial"):
+        raise plan.err()
+    return None
+
+
+def _fdopen(fd, mode="r", buffering=-1, encoding=None, *args, **kwargs):
+    return fake_open(fd, mode, buffering, encoding, *args, **kwargs)
+
+
+def _replacements():
+    return {
+        "open": fake_open,
+        "replace": _path_op("replace", REAL["replace"], 1),
+        "rename": _path_op("rename", REAL["rename"], 1),
+        "link": _path_op("link", REAL["link"], 1),
+        "symlink": _path_op("symlink", REAL["symlink"], 1),
+        "truncate": _path_op("truncate", REAL["truncate"], 0),
+        "remove": _remove(REAL["remove"]),
+        "unlink": _remove(REAL["unlink"]),
+        "os_open": _os_open,
+        "os_write": _os_write,
+        "os_close": _os_close,
+        "fdopen": _fdopen,
+    }
 
 
 _SAVED = []
 
 
-def install(plan):
-    import uberjob.stores._file_store as fsmod
+def _set(obj, name, value):
+    d = obj.__dict__ if not isinstance(obj, dict) else obj
+    _SAVED.append((obj, name, d.get(name, _SAVED), ))
+    if isinstance(obj, dict):
+        obj[name] = value
+    else:
+        setattr(obj, name, value)
 
-    if _SAVED:
+
+def install(plan):
+    if _SAVED or PLAN[0] is not None:
         raise RuntimeError("fs layer already installed")
     PLAN[0] = plan
-    had_open = "open" in fsmod.__dict__
-    _SAVED.append((fsmod, had_open, fsmod.__dict__.get("open"), fsmod.os))
-    fsmod.open = fake_open
-    fsmod.os = FakeOs()
+    rep = _replacements()
+    _set(_builtins, "open", rep["open"])
+    _set(io, "open", rep["open"])
+    for name in ("replace", "rename", "link", "symlink", "truncate", "remove", "unlink", "fdopen"):
+        _set(_os, name, rep[name])
+    _set(_os, "open", rep["os_open"])
+    _set(_os, "write", rep["os_write"])
+    _set(_os, "close", rep["os_close"])
+    _set(_shutil, "_USE_CP_SENDFILE", False)
+    # names bound at import time inside the package under test (`from os import replace`, `from io import open`)
+    by_id = {id(REAL[k]): rep[k] for k in rep}
+    for modname, mod in list(_sys.modules.items()):
+        if mod is None or not (modname == "uberjob" or modname.startswith("uberjob.")):
+            continue
+        for k, v in list(vars(mod).items()):
+            r = by_id.get(id(v))
+            if r is not None and not k.startswith("__"):
+                _set(mod, k, r)
 
 
 def uninstall():
     while _SAVED:
-        fsmod, had_open, old_open, old_os = _SAVED.pop()
-        if had_open:
-            fsmod.open = old_open
+        obj, name, old = _SAVED.pop()
+        if old is _SAVED:
+            if isinstance(obj, dict):
+                obj.pop(name, None)
+            else:
+                try:
+                    delattr(obj, name)
+                except AttributeError:
+                    pass
+        elif isinstance(obj, dict):
+            obj[name] = old
         else:
-            del fsmod.open
-        fsmod.os = old_os
+            setattr(obj, name, old)
     PLAN[0] = None
